@@ -19,15 +19,33 @@ type kv struct {
 }
 
 func mkDict(prefix string, n int) ([]kv, *value.HashMap) {
+	m, _, hm := mkDictSharing(prefix, n, nil, -1)
+	return m, hm
+}
+
+// mkDictSharing builds a dictionary of n numbers; when share >= 0 the entry
+// under keys[share] is the very same element object as in `other` (two
+// dictionaries may hold one element by reference, e.g. after 写入 of one variable).
+func mkDictSharing(prefix string, n int, other []r.Element, share int) ([]kv, []r.Element, *value.HashMap) {
 	var model []kv
 	var pairs []value.KVPair
+	var elems []r.Element
 	for i := 0; i < n; i++ {
-		v := zv.Float64(prefix)
-		zv.Assume(v == v) // NaN under structural equality is unspecified
+		var el r.Element
+		var v float64
+		if i == share && i < len(other) {
+			el = other[i]
+			v = el.(*value.Number).GetValue()
+		} else {
+			v = zv.Float64(prefix)
+			zv.Assume(v == v) // NaN under structural equality is unspecified
+			el = value.NewNumber(v)
+		}
 		model = append(model, kv{keys[i], v})
-		pairs = append(pairs, value.KVPair{Key: keys[i], Value: value.NewNumber(v)})
+		elems = append(elems, el)
+		pairs = append(pairs, value.KVPair{Key: keys[i], Value: el})
 	}
-	return model, value.NewHashMap(pairs)
+	return model, elems, value.NewHashMap(pairs)
 }
 
 // contents equality: same key set, equal values (order irrelevant)
@@ -71,8 +89,8 @@ func H_DictEquality() {
 		N = 3
 	}
 	n := zv.Choose(N) + 1
-	ma, a := mkDict("a", n)
-	mb, b := mkDict("b", n)
+	ma, ea, a := mkDictSharing("a", n, nil, -1)
+	mb, _, b := mkDictSharing("b", n, ea, zv.Choose(n+1)-1)
 	op := zv.Choose(3)
 	src := []string{"输入A、B\n输出 A 为 B", "输入A、B\n输出 A 不为 B", "输入A、B\n输出 A == B"}[op]
 	zv.SetMapOrder(1)
@@ -89,8 +107,8 @@ func H_DictEquality() {
 // H_ContainsFind: 包含 / 寻找 with dictionary elements.
 func H_ContainsFind() {
 	n := 2
-	ma, a := mkDict("a", n)
-	mb, b := mkDict("b", n)
+	ma, ea, a := mkDictSharing("a", n, nil, -1)
+	mb, _, b := mkDictSharing("b", n, ea, zv.Choose(n+1)-1)
 	lst := value.NewArray([]r.Element{value.NewNumber(1), a})
 	zv.SetMapOrder(1)
 	var c, f r.Element
@@ -111,8 +129,8 @@ func H_ContainsFind() {
 
 // H_CompareValues: value.CompareValues on nested dictionaries.
 func H_CompareValues() {
-	ma, a := mkDict("a", 2)
-	mb, b := mkDict("b", 2)
+	ma, ea, a := mkDictSharing("a", 2, nil, -1)
+	mb, _, b := mkDictSharing("b", 2, ea, zv.Choose(3)-1)
 	outerA := value.NewHashMap([]value.KVPair{{Key: "内", Value: a}, {Key: "数", Value: value.NewNumber(1)}})
 	outerB := value.NewHashMap([]value.KVPair{{Key: "数", Value: value.NewNumber(1)}, {Key: "内", Value: b}})
 	zv.SetMapOrder(1)
